@@ -283,6 +283,69 @@ fn hostile_case(idx: u64, rec: &mut Rec) {
     }
 }
 
+/// Requests in origin-form (`GET /path` with the Host spelled out) have no absolute URI to resolve
+/// against: an absolute Location still names its target, anything else cannot be resolved and is an
+/// error - never a panic, never a request to an origin nobody named.
+fn origin_form_case(idx: u64, rec: &mut Rec) {
+    const TARGETS: [&str; 3] = ["/path?x=1", "/", "/a/b/../c"];
+    const LOCS: [&[u8]; 12] = [b"http://b.test/next", b"https://a.test/x?y=1#frag", b"http://b.test", b"//c.test/p", b"/next", b"next", b"../up", b"?q=2", b"", b"#f", b"\xff\xfe", b"http://[::1"];
+    let target = TARGETS[(idx % 3) as usize];
+    let loc = LOCS[(idx / 3 % 12) as usize];
+    let method = ["GET", "HEAD", "POST"][(idx / 36 % 3) as usize];
+    let status = [302u16, 307, 303][(idx / 108 % 3) as usize];
+    let mut cfg = ReqCfg::new(method, target);
+    cfg.orig.push(("host".into(), b"a.test".to_vec()));
+    let res = guarded(|| -> Result<Option<(String, String)>, String> {
+        let f = fast_to_recv(&cfg)?;
+        let mut h = RespHead::new(false, status);
+        h.fields.push(Field::new("Location", loc));
+        h.fields.push(Field::new("Content-Length", b"0"));
+        let (end, _, _, _) = fast_response(f, &h.render())?;
+        match end {
+            End::Redirect(mut r) => match r.as_new_flow(RedirectAuthHeaders::SameHost) {
+                Ok(Some(nf)) => {
+                    let uri = nf.uri().to_string();
+                    let mut s = nf.proceed();
+                    let head = write_head_big(&mut s).map(|b| String::from_utf8_lossy(&b).to_string()).unwrap_or_else(|e| format!("<refused: {:?}>", e));
+                    Ok(Some((uri, head)))
+                }
+                Ok(None) => Ok(None),
+                Err(e) => Err(format!("{:?}", e)),
+            },
+            End::Cleanup(_) => Err("no redirect state".into()),
+        }
+    });
+    rec.call();
+    rec.ev(|| format!("{} {} (host: a.test) answered {} Location {:?} -> {:?}", method, target, status, esc(loc), res));
+    match res {
+        Err((l, m)) => rec.fail(&format!("C14/{}", panic_sig(&l, &m)), format!("request {} {} with Host a.test, {} Location {:?}: panic {} at {}", method, target, status, esc(loc), m, l)),
+        Ok(Err(_)) => rec.cov("origin-form/refused"),
+        Ok(Ok(None)) => rec.cov("origin-form/not-followed"),
+        Ok(Ok(Some((uri, head)))) => {
+            rec.cov("origin-form/followed");
+            let u = split_uri(&uri);
+            let new_host = host_of(&u);
+            let loc_s = String::from_utf8_lossy(loc).to_ascii_lowercase();
+            if new_host != "a.test" && (new_host.is_empty() || !loc_s.contains(&new_host)) {
+                return rec.fail("C14/wrong-origin", format!("Location {:?} for an origin-form request led to {:?}", esc(loc), uri));
+            }
+            if let Some(line) = head.lines().find(|l| l.to_ascii_lowercase().starts_with("host:")) {
+                let hv = line[5..].trim().to_ascii_lowercase();
+                let hv_host = hv.rsplit_once(':').map(|(h, p)| if p.chars().all(|c| c.is_ascii_digit()) { h.to_string() } else { hv.clone() }).unwrap_or(hv.clone());
+                if hv_host != new_host {
+                    return rec.fail("C14/host-header-wrong-origin", format!("origin-form request redirected to {} but Host: {}", uri, hv));
+                }
+            }
+            if let Some(first) = head.lines().next() {
+                let want = path_and_query(&u);
+                if first.split(' ').nth(1) != Some(want.as_str()) {
+                    return rec.fail("C14/request-line-target", format!("redirected to {} but the request line is {:?}", uri, first));
+                }
+            }
+        }
+    }
+}
+
 fn missing_case(idx: u64, rec: &mut Rec) {
     // missing / non-textual Location must be an error; with several fields the LAST one counts,
     // so a textual field before a non-textual last one must not be followed either
@@ -398,6 +461,7 @@ impl Property for P {
             Workload::new("chains", tier.pick(20_000, 8_000_000), false, "random clean chains, URI compared at every hop"),
             Workload::new("wire", tier.pick(5_000, 2_000_000), false, "request line and Host of every intermediate hop"),
             Workload::new("hostile", ((HOSTILE.len() + LONG_NON_TEXTUAL) * 3) as u64, true, "hostile Locations (36 hand-picked + 56 long non-textual ones around 256 bytes) x 3 bases, weak oracle"),
+            Workload::new("origin-form", 3 * 12 * 3 * 3, true, "requests in origin-form with the Host spelled out x 12 Locations x 3 methods x 3 statuses: no absolute base to resolve against"),
             Workload::new("partial-two-locations", 54, true, "opt-in truncated 3xx heads carrying two different Location fields"),
             Workload::new("missing", 108, true, "missing / non-textual Location, alone, as the last of several fields, and after interim responses that carry a Location"),
         ]
@@ -408,6 +472,7 @@ impl Property for P {
             "chains" => chain_case(&mut rng, rec),
             "wire" => wire_case(&mut rng, rec),
             "hostile" => hostile_case(idx, rec),
+            "origin-form" => origin_form_case(idx, rec),
             "partial-two-locations" => partial_locations_case(idx, rec),
             _ => missing_case(idx, rec),
         }
@@ -429,6 +494,8 @@ impl Property for P {
         v.push(("wire-checked".into(), 500));
         v.push(("missing-location".into(), 5));
         v.push(("partial-two-locations/followed".into(), 20));
+        v.push(("origin-form/followed".into(), 20));
+        v.push(("origin-form/refused".into(), 20));
         v.push(("non-textual-last-location-after-textual".into(), 5));
         v.push(("hostile/*".into(), 50));
         v
